@@ -1,17 +1,19 @@
 SPEC = {
     "id": "C09",
     "harness": "c09",
-    "n": {"quick": 1500, "thorough": 20000},
+    "n": {"quick": 1500, "thorough": 24000},
     "shard": 170,
     "tie_codes": (),
     "trusted_base": [
         "/repo hook html/boxes/verif_export_c09.go (VerifC09ElementToBox = first half of BuildFormattingStructure; table flags; makeBox; integerAttribute)",
         "projection of Go boxes to abstract boxes in go/cmd/c09 (type, element index, pseudo type, anonymous style, float/position/running flags, white-space class, header/footer display, caption-side, colspan/rowspan/span attributes, text)",
-        "elementToBox / style computation / x/net/html parsing produce the model's input (they are not modelled)",
+        "elementToBox, style computation and x/net/html parsing produce the model's input (not modelled; only makeBox's display switch is)",
+        "the element -> display:none relation is read from /repo's computed styles by the harness",
     ],
     "not_modelled": ["ProcessWhitespace / text transforms (the text after them is an input)", "collapseTableBorders",
-                     "Leading/TrailingCollapsibleSpace bookkeeping of InlineInBlock", "footnote extraction", "elementToBox itself (only makeBox's display switch)"],
-    "codes": {"1": "box tree returned by BuildFormattingStructure differs from the model's tree",
+                     "Leading/TrailingCollapsibleSpace bookkeeping of InlineInBlock", "footnote extraction",
+                     "elementToBox itself (pseudo-elements, markers, replaced elements: only their resulting boxes are inputs)"],
+    "codes": {"1": "box tree returned by BuildFormattingStructure differs from the model's tree (type, anonymity, element, GridX/Colspan/Rowspan, wrapper/header/footer/item flags, text or child order)",
               "3": "implementation's tree violates the well-formedness specification Box/BoxWf.wf_root",
               "4": "a box exists for an element of a display:none subtree",
               "5": "implementation panicked where the model returns a tree",
@@ -19,7 +21,31 @@ SPEC = {
               "7": "malformed case", "8": "makeBox display->type table differs", "9": "box class table differs",
               "10": "IsInProperParents table differs",
               "11": "two cells of a row group share a grid slot (colspan over a row-spanning cell)"},
-    "theorems_for_kind": {},
-    "rule": "SplitMix64-seeded random documents",
+    "theorems_for_kind": {
+        "tree": "C09_create_anonymous_wf_partial / C09_table_fixup_wf / C09_slots (the model's tree is the well-formed one)",
+        "corpus": "C09_create_anonymous_wf_partial / C09_slots",
+        "makebox": "C09_makebox_table_total", "classes": "class predicates used by every C09 theorem",
+        "proper-parents": "C09_table_fixup_wf (rule 3.2)",
+    },
+    "rule": "SplitMix64-seeded random documents (<= 30 elements; every element gets a random display among the 20 supported values "
+            "incl. mis-nested table parts, float, position incl. running(), white-space, colspan/rowspan/span attributes, ::before/::after "
+            "with content, list items, images; text / whitespace-only text between elements; real <table> markup; 1 in 6 a well-formed table "
+            "with heavy col/rowspans) + exhaustive makeBox / box-class / IsInProperParents tables + corpus/C09/*.html first; "
+            "non-trivial = more than 3 boxes before fix-up; distinct by Coq term",
 }
-MANIFEST = {"text": "wip", "note": "wip", "technique": "Coq proof over executable model + vm_compute correspondence with the Go implementation"}
+MANIFEST = {
+    "text": "Coq theorems over a line-by-line Gallina port of CreateAnonymousBox (table fix-up rules 1.1-3.2, wrapTable with grid-slot "
+            "assignment, flex/grid blockification, InlineInBlock, BlockInInline with its resume stacks): each pass establishes its part of the "
+            "well-formedness specification Box/BoxWf.wf (block containers: only block-level boxes or one line box; inline/line boxes: only "
+            "inline-level or out-of-flow boxes; tables in wrappers with captions, column groups, row groups > rows > cells; flex/grid items "
+            "blockified; text/replaced boxes childless), composition create_anonymous_wf; grid slots: totality, rowspans clipped, least free "
+            "column, no cell over a later cell's anchor column, disjointness when colspans are 1, and a proved REFUTATION of full disjointness "
+            "(colspan over a row-spanning cell, reproduced on /repo); makeBox's display switch total and correct. On every run the model's tree is "
+            "compared node by node with boxes.BuildFormattingStructure on generated documents and wf is evaluated on the implementation's tree.",
+    "note": "Partial: the pass theorems are partial-correctness statements (whenever a tree is returned) for documents without position:running(); "
+            "termination/no-panic of BlockInInline's resumable traversal and of the bounded recursion of tableBoxesChildren are stated "
+            "(C09_*_statement) but not proved; checked by the tie (a crash on one side only is a violation). elementToBox is not modelled: "
+            "'display:none generates no box' is proved for makeBox and checked on the implementation's tree. Trusted: Coq kernel (vm_compute), "
+            "harness projection, hook html/boxes/verif_export_c09.go.",
+    "technique": "Coq proof over executable model + vm_compute correspondence with the Go implementation",
+}
